@@ -20,6 +20,9 @@ def build(types, dt100, stop=1000, spawn=None, default_v=2):
 
     class RefAgent(Agent):
         def initialize(self):
+            if getattr(self.model, "_fail_next", False):        # fault injection: this agent's initialisation fails
+                self.model._fail_next = False
+                raise RuntimeError("initialize failed")
             self.register_event_handler(["active", "idle"], "ping", self.on_event)
             self.register_event_handler(["active"], "pong", self.on_event)
             for kid in spawn.get(self.agent_type, ()):      # e.g. a firm hiring its employees
